@@ -64,14 +64,15 @@ var modelledBy = map[string][]string{
 	"C10": cat(servicePath, []string{"call:Call.sendMessage", "conn:Conn.ReadBytes"}),
 	"C11": cat(clientPath, []string{"conn:Conn.ReadBytes", "conn:Conn.Write", "connection:type Connection", "connection:Connection.Close", "connection:type ReadWriterContext"}),
 	"C12": cat(replyPath, clientPath, []string{"orgvarlinkservice:InterfaceNotFound.Error", "orgvarlinkservice:InvalidParameter.Error", "orgvarlinkservice:MethodNotFound.Error", "orgvarlinkservice:MethodNotImplemented.Error"}),
-	"C13": {"service:Service.RegisterInterface", "service:NewService", "service:Service.getInfo",
+	// (everything that writes `running` / `conncounter`, which the registration guard reads, belongs to C13 too)
+	"C13": cat(lifecycleAll, []string{"service:Service.RegisterInterface", "service:NewService", "service:Service.getInfo",
 		"service:Service.getInterfaceDescription", "service:type Service",
 		"orgvarlinkservice:Call.replyGetInfo", "orgvarlinkservice:Call.replyGetInterfaceDescription",
 		"orgvarlinkservice:Service.orgvarlinkserviceDispatch",
 		"orgvarlinkservice:orgvarlinkserviceInterface.VarlinkGetDescription",
 		"connection:Connection.GetInfo", "connection:Connection.GetInterfaceDescription",
 		"resolver:Resolver.GetInfo", "resolver:Resolver.Resolve", "resolver:NewResolver", "resolver:Resolver.Close", "resolver:const ResolverAddress", "resolver:type Resolver",
-		"orgvarlinkservice:orgvarlinkserviceInterface.VarlinkDispatch", "orgvarlinkservice:orgvarlinkserviceInterface.VarlinkGetName", "orgvarlinkservice:orgvarlinkserviceNew", "orgvarlinkservice:type orgvarlinkserviceInterface"},
+		"orgvarlinkservice:orgvarlinkserviceInterface.VarlinkDispatch", "orgvarlinkservice:orgvarlinkserviceInterface.VarlinkGetName", "orgvarlinkservice:orgvarlinkserviceNew", "orgvarlinkservice:type orgvarlinkserviceInterface"}),
 	"C14": lifecycleAll, "C15": cat(lifecycleAll, []string{"service:ServiceTimeoutError.Error", "service:type ServiceTimeoutError"}),
 	"C16": cat(lifecycleAll, readerPath, []string{"service:Service.HandleMessage", "service:Service.getInfo", "service:Service.getInterfaceDescription"}),
 	"C17": cat(readerPath, []string{"conn:var aLongTimeAgo", "bridge:PipeCon.SetReadDeadline", "bridge:PipeCon.SetWriteDeadline", "service:Service.handleConnection",
